@@ -1,7 +1,7 @@
 (* LiveProofs.v — one honest seeder suffices (the sequential core of C02's liveness).
 
-   Setting: the manager knows one peer a, which advertises every piece, does not choke us, and answers the requests of
-   an assignment in order with the right bytes (PieceProofs.honest_answer); the chooser is ANY function whose answers
+   Setting: among the manager's peers there is one, a, which advertises every piece, does not choke us, and answers the requests of
+   an assignment in order with the right bytes (PieceProofs.honest_answer), while the others stay silent; the chooser is ANY function whose answers
    satisfy C13's specification (pick_ok).  Then from the first assignment on, every iteration -- the peer answers, the
    task verifies and writes the piece and reports PieceDone, the manager marks it owned, broadcasts it, picks the next
    piece and the task asks for it -- decreases the number of missing pieces by one, and the loop ends with every
@@ -44,7 +44,7 @@ Section Live.
   (* the situation at the start of an iteration: piece c is assigned to a and has just been asked for *)
   Definition Cur (m : mgr) (s : hst) (c : N) : Prop :=
     Good m /\ h_hs_done s = true /\
-    (exists p, m_peers m = [(a, p)] /\ p_piece_index p = Some c /\ p_choked p = false /\ all_pieces p (length (m_status m))) /\
+    (exists p, pget (m_peers m) a = Some p /\ p_piece_index p = Some c /\ p_choked p = false /\ all_pieces p (length (m_status m))) /\
     nthN (m_status m) c = Some (Reserved 1) /\
     (forall j x, j <> c -> nthN (m_status m) j = Some x -> x = Missing \/ x = Have) /\
     (exists l int r acts, nthN (m_plens m) c = Some l /\ new_piece_request cf int c l = (r, acts) /\ h_rx s = Some r).
@@ -53,11 +53,16 @@ Section Live.
   Proof. cbn [pget]. rewrite N.eqb_refl. reflexivity. Qed.
 
   (* ---- the manager's side of one iteration ---- *)
-  Lemma count_have_single m p j : m_peers m = [(a, p)] -> nth j (p_pieces p) false = true -> count_have m j = 1.
-  Proof. intros E H. unfold count_have. rewrite E. cbn [filter snd]. rewrite H. reflexivity. Qed.
+  Lemma count_have_pos m p j : pget (m_peers m) a = Some p -> nth j (p_pieces p) false = true -> (0 <? count_have m j) = true.
+  Proof.
+    intros E H. unfold count_have. induction (m_peers m) as [|[k q] ps IH]; cbn [pget] in E; [discriminate|].
+    cbn [filter snd]. destruct (k =? a).
+    - injection E as ->. rewrite H. rewrite len_cons. lia.
+    - specialize (IH E). destruct (nth j (p_pieces q) false); [rewrite len_cons; lia | exact IH].
+  Qed.
 
   Lemma pick_some_is_missing m p c' :
-    m_peers m = [(a, p)] ->
+    pget (m_peers m) a = Some p ->
     (forall j x, nthN (m_status m) j = Some x -> x = Missing \/ x = Have) ->
     pick_ok m p (Some c') = true -> nthN (m_status m) c' = Some Missing.
   Proof.
@@ -68,7 +73,7 @@ Section Live.
   Qed.
 
   Lemma pick_none_all_have m p :
-    m_peers m = [(a, p)] -> all_pieces p (length (m_status m)) ->
+    pget (m_peers m) a = Some p -> all_pieces p (length (m_status m)) ->
     (forall j x, nthN (m_status m) j = Some x -> x = Missing \/ x = Have) ->
     pick_ok m p None = true -> all_have (m_status m) = true.
   Proof.
@@ -78,8 +83,7 @@ Section Live.
     assert (Hjl : (j < length (m_status m))%nat) by (apply nth_error_Some; congruence).
     assert (Hin : In j (indices m)) by (unfold indices; apply in_seq; lia).
     specialize (H j Hin). apply negb_true_iff in H. unfold eligible in H.
-    rewrite (count_have_single m p j Ep (Hall j Hjl)), (Hall j Hjl) in H. cbn [N.ltb N.compare andb] in H.
-    change (0 <? 1) with true in H. rewrite !andb_true_r in H.
+    rewrite (count_have_pos m p j Ep (Hall j Hjl)), (Hall j Hjl) in H. rewrite !andb_true_r in H.
     unfold desired in H. rewrite Hj in H.
     assert (Hx' : nthN (m_status m) (N.of_nat j) = Some x) by (unfold nthN; rewrite Nat2N.id; exact Hj).
     destruct (Hst _ _ Hx') as [->| ->]; [|reflexivity]. destruct (end_game m); discriminate.
@@ -90,18 +94,18 @@ Section Live.
     match pick with Some c' => sset (sset st c Have) c' (Reserved 1) | None => sset st c Have end.
 
   Lemma done_step m p c l' pick :
-    m_peers m = [(a, p)] -> p_piece_index p = Some c -> p_choked p = false ->
+    pget (m_peers m) a = Some p -> p_piece_index p = Some c -> p_choked p = false ->
     nthN (m_status m) c = Some (Reserved 1) ->
     (forall c', pick = Some c' -> nthN (sset (m_status m) c Have) c' = Some Missing /\ nthN (m_plens m) c' = Some l') ->
     exists m' rep sp,
       mstep m (CPieceDone a) pick = Ok (m', rep, [BHave c], sp) /\
       m_status m' = next_status (m_status m) c pick /\ m_plens m' = m_plens m /\
       match pick with
-      | Some c' => rep = RPiece_Req c' l' /\ m_peers m' = [(a, set_assign p (Some c') (p_am_interested p))]
+      | Some c' => rep = RPiece_Req c' l' /\ pget (m_peers m') a = Some (set_assign p (Some c') (p_am_interested p))
       | None => True
       end.
   Proof.
-    intros Ep Ei Ec Es Hpick. cbn [mstep]. rewrite Ep, pget_single, Ei, Es.
+    intros Ep Ei Ec Es Hpick. cbn [mstep]. rewrite Ep, Ei, Es.
     unfold peer_handle_piece. destruct pick as [c'|].
     - destruct (Hpick c' eq_refl) as [Hm Hl].
       change (Peer_no_reserve_when_choked && p_choked p) with (p_choked p). rewrite Ec.
@@ -109,7 +113,7 @@ Section Live.
       unfold plen_of. cbn [with_status m_plens]. rewrite Hl. cbn [bind]. unfold out. cbn [bind].
       eexists _, _, _. split; [reflexivity|]. cbn [with_peer with_status m_status m_plens m_peers next_status].
       split; [reflexivity|]. split; [reflexivity|]. split; [reflexivity|].
-      rewrite Ep. cbn [pset]. rewrite N.eqb_refl. reflexivity.
+      apply pget_pset_same.
     - unfold out. cbn [bind]. eexists _, _, _. split; [reflexivity|]. cbn [with_peer with_status m_status m_plens next_status].
       repeat split.
   Qed.
@@ -120,7 +124,7 @@ Section Live.
   (* one iteration: the peer's answers, the task's verification and report, the manager's bookkeeping and next pick *)
   Inductive Iter : mgr * hst * N -> mgr * hst * N -> Prop :=
   | iter_next m s c pre bl_last s1 p pick c' m' rep sp s' acts :
-      m_peers m = [(a, p)] -> pick = choose (with_status m (sset (m_status m) c Have)) p -> pick = Some c' ->
+      pget (m_peers m) a = Some p -> pick = choose (with_status m (sset (m_status m) c Have)) p -> pick = Some c' ->
       run sha1 cf disk ovf s (early c (content c) pre) = Some s1 ->
       mstep m (CPieceDone a) pick = Ok (m', rep, [BHave c], sp) ->
       hstep sha1 cf disk ovf s1 (EFrame (honest_answer c (content c) bl_last)) (Some rep) = HCont s' acts ->
@@ -128,7 +132,7 @@ Section Live.
       Iter (m, s, c) (m', s', c').
   Inductive Last : mgr * hst * N -> mgr -> Prop :=
   | iter_last m s c pre bl_last s1 p m' rep sp :
-      m_peers m = [(a, p)] -> choose (with_status m (sset (m_status m) c Have)) p = None ->
+      pget (m_peers m) a = Some p -> choose (with_status m (sset (m_status m) c Have)) p = None ->
       run sha1 cf disk ovf s (early c (content c) pre) = Some s1 ->
       mstep m (CPieceDone a) None = Ok (m', rep, [BHave c], sp) ->
       In (AWrite (hash_of cf c) (content c))
@@ -160,7 +164,7 @@ Section Live.
     { intros reply. rewrite El in Hnpr, Hpos.
       exact (assigned_piece_completes sha1 cf disk ovf c (content c) Hhash int s r acts0 reply Hpos Hnpr Hd Hrx). }
     set (m1 := with_status m (sset (m_status m) c Have)).
-    assert (Ep1 : m_peers m1 = [(a, p)]) by exact Ep.
+    assert (Ep1 : pget (m_peers m1) a = Some p) by exact Ep.
     assert (Hst1 : forall j x, nthN (m_status m1) j = Some x -> x = Missing \/ x = Have).
     { intros j x. unfold m1. cbn [with_status m_status]. rewrite nthN_sset. destruct (N.eqb_spec c j) as [->|Nj].
       - rewrite Hsc. intros [= <-]. right. reflexivity.
@@ -253,7 +257,7 @@ Proof.
     assert (Hi : (N.to_nat i < 2)%nat) by (apply (nthN_some_iff (m_plens lx_m) i); eexists; exact H).
     assert (Ei : i = 0 \/ i = 1) by lia. destruct Ei as [-> | ->]; cbn in H; injection H as <-; repeat split; reflexivity.
   - split; [reflexivity|]. split.
-    + exists lx_peer. repeat split. intros j Hj. cbn in Hj. destruct j as [|[|j]]; [reflexivity | reflexivity | lia].
+    + exists lx_peer. split; [reflexivity|]. repeat split. intros j Hj. cbn in Hj. destruct j as [|[|j]]; [reflexivity | reflexivity | lia].
     + split; [reflexivity|]. split.
       * intros j x Hj H.
         assert (Hi : (N.to_nat j < 2)%nat) by (apply (nthN_some_iff (m_status lx_m) j); eexists; exact H).
